@@ -37,6 +37,9 @@ type opF struct {
 
 type caseF struct {
 	Role      string `json:"role"` // admin, userplus, user
+	// RoleAs: how the role is spelled in the create-user call ("" = as it is). A spelling the gateway refuses ends the
+	// case; one it acknowledges has created an account that must act in that role.
+	RoleAs string `json:"role_as,omitempty"`
 	Ops       []opF  `json:"ops"`
 	AdminPort bool   `json:"admin_port,omitempty"` // the gateway serves the admin API on a listener of its own (--admin-port)
 	Delete    bool   `json:"delete,omitempty"`     // at the end the account is deleted: its last secret must stop working too
@@ -99,10 +102,39 @@ func runF(c caseF) error {
 	root := s3root.On(admT) // where account changes are made
 	acct := tag + "acct"
 	cur := 0
-	if r, err := root.CreateUser(acct, secretF(tag, 0), c.Role, 0, 0); err != nil || !(r.Status == 200 || r.Status == 201) {
+	spelled := c.Role
+	if c.RoleAs != "" {
+		spelled = c.RoleAs
+	}
+	if r, err := root.CreateUser(acct, secretF(tag, 0), spelled, 0, 0); err != nil || !(r.Status == 200 || r.Status == 201) {
+		if err == nil && c.RoleAs != "" && r.Status >= 400 && r.Status < 500 {
+			return nil // not a role name to this gateway: no account
+		}
 		return fmt.Errorf("SETUP: create user: %v %v", r, err)
 	}
 	defer root.Call("PATCH", "/delete-user", s3c.Q("access", acct), nil, nil)
+	// the account acts in its role at once: only admins may use the admin API, only admins and userplus accounts may
+	// create buckets
+	{
+		u := s3root.As(s3c.Creds{Access: acct, Secret: secretF(tag, 0)})
+		lr, err := u.On(admT).Call("PATCH", "/list-users", nil, nil, nil)
+		if err != nil {
+			return fmt.Errorf("SETUP: transport: %v", err)
+		}
+		nb := tag + "own"
+		br, err := u.Call("PUT", "/"+nb, nil, nil, nil)
+		if err != nil {
+			return fmt.Errorf("SETUP: transport: %v", err)
+		}
+		if br.OK() {
+			defer s3root.Call("DELETE", "/"+nb, nil, nil, nil)
+		}
+		wantAdmin, wantCreate := c.Role == "admin", c.Role != "user"
+		if lr.OK() != wantAdmin || br.OK() != wantCreate {
+			return fmt.Errorf("create-user with role %q was acknowledged; the new account's list-users answers %d %s and its CreateBucket %d %s: an account of role %s %s use the admin API and %s create buckets",
+				spelled, lr.Status, lr.Code(), br.Status, br.Code(), c.Role, map[bool]string{true: "may", false: "may not"}[wantAdmin], map[bool]string{true: "may", false: "may not"}[wantCreate])
+		}
+	}
 	bkt := tag + "b"
 	as := func(n int) *s3c.Client { return s3root.As(s3c.Creds{Access: acct, Secret: secretF(tag, n)}) }
 	// the account's own bucket, so that every role can list and write it
@@ -213,6 +245,9 @@ func TestC17F(t *testing.T) {
 	ev.Check(t, "C17F", func(t *rapid.T) {
 		var c caseF
 		c.Role = rapid.SampledFrom([]string{"admin", "admin", "userplus", "user"}).Draw(t, "role")
+		if rapid.IntRange(0, 3).Draw(t, "role_spelling") == 0 {
+			c.RoleAs = map[string][]string{"admin": {"Admin", "ADMIN", "admin "}, "userplus": {"UserPlus", "USERPLUS", "userPlus"}, "user": {"User", "USER", " user"}}[c.Role][rapid.IntRange(0, 2).Draw(t, "role_as")]
+		}
 		c.Ops = rapid.SliceOfN(rapid.Custom(func(t *rapid.T) opF {
 			o := opF{Kind: rapid.SampledFrom([]string{"change", "probe", "probe", "probe"}).Draw(t, "kind")}
 			if o.Kind == "change" {
